@@ -51,6 +51,9 @@ pub fn emit_for_tree(
                 };
             }
             prev_sel = Some(sel.clone());
+            if *counter % 4 == 1 {
+                case["warmup"] = warmup_for(&cfg, *counter);
+            }
             case["selection"] = J::Object(sel);
             if !sink(case) {
                 return false;
@@ -75,6 +78,9 @@ fn cases_catalog(rng: &mut Rng, sink: &mut dyn FnMut(J) -> bool) {
                 let sel = build_selection(&claims, &strategy, &chosen, SelStyle::Sparse, rng);
                 let mut case = Cfg::simple(claims.clone(), strategy.clone()).variant(counter).to_json();
                 case["again"] = J::Object(sel.clone());
+                if counter % 2 == 0 {
+                    case["warmup"] = warmup_for(&Cfg::from_json(&case).unwrap(), counter);
+                }
                 case["selection"] = J::Object(sel);
                 if !sink(case) {
                     return;
@@ -123,9 +129,16 @@ pub fn check(case: &J) -> Verdict {
         return Verdict::Trivial;
     }
     let _ = honest_presentation;
-    let (issued, _parts) = match cfg.issue_parts() {
-        Ok(x) => x,
-        Err(v) => return v,
+    // the issuer instance may already have issued something else (documented as reusable)
+    let mut issuer = sut::new_issuer(&cfg.alg);
+    if let Some(w) = case.get("warmup").and_then(Cfg::from_json) {
+        if let Out::Panic(m) = sut::issue_on(&mut issuer, &w.claims, &w.strategy, w.holder.as_deref(), w.decoys, &w.format) {
+            return fail(format!("earlier issuance on the same issuer PANIC: {m}"), "Ok or Err");
+        }
+    }
+    let issued = match sut::issue_on(&mut issuer, &cfg.claims, &cfg.strategy, cfg.holder.as_deref(), cfg.decoys, &cfg.format) {
+        Out::Ok(s) => s,
+        o => return fail(format!("issue_sd_jwt{} -> {}", if case.get("warmup").is_some() { " (on an issuer instance that issued another credential before)" } else { "" }, o.brief()), "Ok(SD-JWT)"),
     };
     let mut holder = match sut::holder_new(&issued, &cfg.format) {
         Out::Ok(h) => h,
@@ -269,4 +282,29 @@ fn cases_long_arrays(_rng: &mut Rng, sink: &mut dyn FnMut(J) -> bool) {
             }
         }
     }
+}
+
+/// An earlier, unrelated issuance for the same issuer instance: key-bound (another holder than
+/// this call's), other claims, the other format, decoys on.
+fn warmup_for(cfg: &Cfg, n: usize) -> J {
+    let holder = match cfg.holder.as_deref() {
+        Some("es256") => "eddsa",
+        Some(_) => "es256",
+        None => {
+            if n % 2 == 0 {
+                "es256"
+            } else {
+                "eddsa"
+            }
+        }
+    };
+    Cfg {
+        claims: json!({"iss": "https://issuer.example/i", "exp": crate::util::FAR_EXP, "sub": "earlier-subject", "secret": {"of": ["the", "earlier"], "holder": true}}),
+        strategy: if n % 3 == 0 { Strategy::TopLevel } else { Strategy::AllLevels },
+        format: if cfg.format == "compact" { "json".into() } else { "compact".into() },
+        alg: cfg.alg.clone(),
+        decoys: true,
+        holder: Some(holder.into()),
+    }
+    .to_json()
 }
